@@ -21,6 +21,16 @@ def run(ctx, res):
                              "subroot": next((o["type"] for d in ds if d["k"] == "schema" for o in d["ops"] if o["op"] == "subscription"),
                                              None if any(d["k"] == "schema" for d in ds) else
                                              next((d["name"] for d in ds if d["k"] == "object" and d["name"] == "Subscription"), None))}
+    for sc in scs:
+        sites = []
+        for d in sc["model"]["defs"]:
+            if d["k"] in ("object", "interface"):
+                for f in d["fields"]:
+                    for a in f["args"]:
+                        t0 = a["type"]["of"] if a["type"]["k"] == "nn" else a["type"]
+                        if a["hasDefault"] and t0["k"] == "list" and t0["of"]["k"] == "nn" and t0["of"]["of"]["k"] == "named":
+                            sites.append([f["name"], a["name"], t0["of"]["of"]["n"]])
+        kinds[sc["name"]]["nnListDefaultSites"] = sites
     for t in triples:
         base = docs[t["doc"] - 1]
         op = G2.OPERATORS[t["operator"] - 1]
@@ -69,6 +79,11 @@ def run(ctx, res):
                          "VarUsageCompatible", "FragNamesUnique", "FragTargets", "FragKnown", "FragNoCycles", "FragSpreadPossible", "DirectivesKnown",
                          "DirectiveLocations", "DirectivesUniquePerLocation", "UniqueOpNames", "LoneAnonymous"]) - set(rules)
     res.extra["rules_never_exercised"] = sorted(missing_rules)
+    by_op = {}
+    for s_ in reported:
+        by_op[s_.get("fault", "?")] = by_op.get(s_.get("fault", "?"), 0) + 1
+    res.extra["confirmed_faults_by_operator"] = by_op
+    res.extra["operators_never_confirmed"] = sorted(set(G2.OPERATORS) - set(by_op) - {i.get("fault", {}).get("operator") for i in o.items if isinstance(i.get("fault"), dict)})
     if not ctx.quick and missing_rules:
         raise vlib.ToolError("rules never exercised by a confirmed fault: %s" % sorted(missing_rules))
     res.assumptions = ["verdict is exactly the property's contrapositive (>= 1 diagnostic); which diagnostic, and where, is recorded not judged"]
